@@ -1,22 +1,86 @@
 #!/usr/bin/env python3
 """Run registered checks against the seeded changes in /verif/seeded/<name>/.
 
-usage: run_seeded.py [NAME ...]     (default: all)    env TIER=quick|thorough
+usage: run_seeded.py [NAME ...]     (default: all)
+env:   TIER=quick|thorough   SEEDS="1 2 3" (VERIF_SEED values, default "1")
+       JOBS=n (seeds in parallel, default 3)   INPLACE=1 (patch /repo itself)
 
-For each seeded change: apply patch.diff to /repo (git apply), run the check of
-the property it breaks (meta.json 'property', plus 'also' if given), record
-whether a VIOLATION was reported, and ALWAYS restore /repo
-(git checkout -- . and git clean of files the patch added).
-Prints one line per (seed, check) and writes seeded/RESULTS.json.
+Default mode: for each seeded change a scratch git worktree of /repo's HEAD is
+made under the system temp dir, patch.diff is applied there, and the check of
+the property it breaks (meta.json 'property', plus 'also') runs with
+VERIF_REPO=<worktree>; the worktree is removed afterwards. /repo is never
+touched, evidence/ and replays/ are not written (VERIF_SCRATCH_OUT).
+INPLACE=1 is the literal procedure: git -C /repo apply, run, git checkout.
+Prints one line per (seed, check, VERIF_SEED) and writes seeded/RESULTS.json.
 """
 import json
 import os
+import shutil
 import subprocess
 import sys
+import tempfile
 import time
+from concurrent.futures import ThreadPoolExecutor
 
 ROOT = os.path.dirname(os.path.dirname(os.path.abspath(__file__)))
 SEEDED = os.path.join(ROOT, 'seeded')
+
+
+def run_one(name: str, tier: str, seeds: list[str], inplace: bool) -> dict:
+    d = os.path.join(SEEDED, name)
+    meta = json.load(open(os.path.join(d, 'meta.json')))
+    if meta.get('status') == 'neutralised':
+        print(f'{name:10s} skipped: {meta.get("status_note", "")[:100]}',
+              flush=True)
+        return {'skipped': meta.get('status_note', '')}
+    checks = [meta['property']] + list(meta.get('also', []))
+    res: dict = {}
+    wt = None
+    scratch = tempfile.mkdtemp(prefix='seedrun-')
+    env = dict(os.environ, VERIF_SCRATCH_OUT=scratch)
+    try:
+        if inplace:
+            subprocess.check_call(['git', '-C', '/repo', 'apply',
+                                   os.path.join(d, 'patch.diff')])
+        else:
+            wt = os.path.join(scratch, 'tree')
+            subprocess.check_call(['git', '-C', '/repo', 'worktree', 'add',
+                                   '--detach', wt, 'HEAD'],
+                                  stdout=subprocess.DEVNULL,
+                                  stderr=subprocess.DEVNULL)
+            subprocess.check_call(['git', '-C', wt, 'apply',
+                                   os.path.join(d, 'patch.diff')])
+            env['VERIF_REPO'] = wt
+        for chk in checks:
+            for seed in seeds:
+                t0 = time.time()
+                env['VERIF_SEED'] = seed
+                r = subprocess.run([os.path.join(ROOT, 'check'), chk,
+                                    '--tier', tier], env=env,
+                                   capture_output=True, text=True)
+                sigs = [ln.split(': ', 1)[1] for ln in r.stdout.splitlines()
+                        if ln.startswith('signature: ')]
+                caught = r.returncode == 1 and 'VIOLATION' in r.stdout
+                res.setdefault(chk, {})[seed] = {
+                    'caught': caught, 'exit': r.returncode,
+                    'signatures': sigs[:6], 'wall_s': round(time.time() - t0)}
+                print(f'{name:10s} {chk} seed={seed} '
+                      f'{"CAUGHT" if caught else "missed"} '
+                      f'exit={r.returncode} {sigs[:3]}', flush=True)
+                if r.returncode == 2:
+                    print(r.stderr[-800:], flush=True)
+    finally:
+        if inplace:
+            subprocess.check_call(['git', '-C', '/repo', 'checkout', '--',
+                                   '.'])
+            subprocess.check_call(['git', '-C', '/repo', 'clean', '-fdq',
+                                   'pymap'])
+        elif wt:
+            subprocess.call(['git', '-C', '/repo', 'worktree', 'remove',
+                             '--force', wt], stdout=subprocess.DEVNULL,
+                            stderr=subprocess.DEVNULL)
+        shutil.rmtree(scratch, ignore_errors=True)
+    return res
 
 
 def main() -> int:
@@ -24,50 +88,34 @@ def main() -> int:
         d for d in os.listdir(SEEDED)
         if os.path.isfile(os.path.join(SEEDED, d, 'patch.diff')))
     tier = os.environ.get('TIER', 'quick')
-    results = {}
-    status = subprocess.run(['git', '-C', '/repo', 'status', '--porcelain'],
-                            capture_output=True, text=True).stdout.strip()
-    if status:
-        print('refusing: /repo has uncommitted changes:\n' + status)
-        return 2
-    for name in names:
-        d = os.path.join(SEEDED, name)
-        meta = json.load(open(os.path.join(d, 'meta.json')))
-        checks = [meta['property']] + list(meta.get('also', []))
-        if meta.get('status') == 'neutralised':
-            print(f'{name:28s} skipped: {meta.get("status_note", "")[:100]}')
-            results[name] = {'skipped': meta.get('status_note', '')}
-            continue
-        try:
-            subprocess.check_call(['git', '-C', '/repo', 'apply',
-                                   os.path.join(d, 'patch.diff')])
-            for chk in checks:
-                t0 = time.time()
-                r = subprocess.run([os.path.join(ROOT, 'check'), chk,
-                                    '--tier', tier],
-                                   capture_output=True, text=True)
-                sigs = [ln.split(': ', 1)[1] for ln in r.stdout.splitlines()
-                        if ln.startswith('signature: ')]
-                caught = r.returncode == 1 and 'VIOLATION' in r.stdout
-                results.setdefault(name, {})[chk] = {
-                    'caught': caught, 'exit': r.returncode,
-                    'signatures': sigs[:6], 'wall_s': round(time.time() - t0)}
-                print(f'{name:28s} {chk} {"CAUGHT" if caught else "missed"} '
-                      f'exit={r.returncode} {sigs[:3]}')
-                if r.returncode == 2:
-                    print(r.stderr[-800:])
-        finally:
-            subprocess.check_call(['git', '-C', '/repo', 'checkout', '--',
-                                   '.'])
-            subprocess.check_call(['git', '-C', '/repo', 'clean', '-fdq',
-                                   'pymap'])
-            subprocess.call('rm -rf %s/replays/*/found' % ROOT, shell=True)
+    seeds = os.environ.get('SEEDS', '1').split()
+    inplace = bool(os.environ.get('INPLACE'))
+    jobs = 1 if inplace else int(os.environ.get('JOBS', '3'))
+    if inplace:
+        status = subprocess.run(['git', '-C', '/repo', 'status',
+                                 '--porcelain'], capture_output=True,
+                                text=True).stdout.strip()
+        if status:
+            print('refusing: /repo has uncommitted changes:\n' + status)
+            return 2
+    with ThreadPoolExecutor(jobs) as ex:
+        futs = {n: ex.submit(run_one, n, tier, seeds, inplace)
+                for n in names}
+        results = {n: f.result() for n, f in futs.items()}
+    subprocess.call(['git', '-C', '/repo', 'worktree', 'prune'])
+    head = subprocess.run(['git', '-C', '/repo', 'log', '--format=%h', '-1'],
+                          capture_output=True, text=True).stdout.strip()
     out = os.path.join(SEEDED, 'RESULTS.json')
     old = {}
     if os.path.exists(out):
         old = json.load(open(out))
-    old.update(results)
+    for n, r in results.items():
+        old[n] = {'repo_head': head, 'tier': tier, 'checks': r}
     json.dump(old, open(out, 'w'), indent=1, sort_keys=True)
+    missed = [(n, c, s) for n, r in results.items() if 'skipped' not in r
+              for c, per in r.items() for s, v in per.items()
+              if not v['caught']]
+    print(f'{len(results)} seeds, missed runs: {missed}')
     return 0
 
 
